@@ -52,6 +52,7 @@ import contextlib
 import inspect
 import sys
 import threading as _rt
+import _thread
 import time as _real_time
 import select as _real_select
 
@@ -120,7 +121,7 @@ def enumerate_deviations(probe, bound, want=None, max_decisions=None):
       k = d["k"]
       if k <= last or (max_decisions is not None and k >= max_decisions):
         continue
-      if want is not None and not want(d):
+      if d.get("frozen") or (want is not None and not want(d)):
         continue
       for v in range(1, d["n"]):
         nd = dict(devs)
@@ -163,7 +164,8 @@ class _Rec(object):
 
   def __init__(self, idx, name):
     self.idx, self.name = idx, name
-    self.sem = _rt.Semaphore(0)
+    self.sem = _thread.allocate_lock()   # binary semaphore: held = "no baton"; release() passes the baton
+    self.sem.acquire()
     self.state = "new"          # new -> run <-> blocked -> done
     self.pred = None
     self.deadline = None
@@ -177,10 +179,11 @@ class _Rec(object):
 class Result(object):
   """What happened in one DetSched.run()."""
   def __init__(self):
-    self.decisions = []        # {"k","n","v","thread","kind","site","window"}
+    self.decisions = []        # {"k","n","v","thread","kind","site","window","to","frozen"}
     self.preemptions = []      # decisions of kind "line" with v % n != 0
     self.time_advances = []    # (from, to, [names of threads whose deadline it was])
     self.deadlock = None       # None | [(thread name, blocking site)]
+    self.stalled = None        # None | [(thread name, blocking site)] -- see max_vtime_span
     self.budget_exceeded = False
     self.thread_errors = []    # (thread name, exception) for exceptions escaping a managed thread (not main)
     self.switches = 0
@@ -193,11 +196,17 @@ class Result(object):
 
 class DetSched(object):
   def __init__(self, chooser=None, trace=None, windows=None, base=0, t0=1000.0,
-               watchdog_s=60.0, max_switch_points=400000, on_abort=None, decide_on="all"):
+               watchdog_s=60.0, max_switch_points=400000, on_abort=None, decide_on="all",
+               observer=None, max_vtime_span=120.0):
     """trace: {function|code: None (every line) | iterable of line numbers}.
     windows: {function|code: iterable of line numbers} -- lines flagged `window=True` in decisions.
     decide_on: "all" -> every traced line is a decision point; "windows" -> only window lines
-    (blocking primitives and thread exits always are)."""
+    (blocking primitives and thread exits always are).
+    observer(thread_name, site): called on the running thread at every traced line event (before the
+    decision), for invariants that must hold at every switch point; it must not block.
+    max_vtime_span: if virtual time would pass t0 + span the run is stopped and `Result.stalled` lists the
+    threads blocked without a deadline (some thread waits for ever while only pollers keep waking up).
+    on_abort(): called once when unwinding starts (deadlock / stall / budget), e.g. to set a quit flag."""
     self.chooser = chooser or Chooser()
     self.base = base
     self.now = float(t0)
@@ -205,6 +214,8 @@ class DetSched(object):
     self.max_switch_points = max_switch_points
     self.on_abort = on_abort
     self.decide_on = decide_on
+    self.observer = observer
+    self.t_limit = float(t0) + max_vtime_span
     self._trace = {}
     for f, lines in (trace or {}).items():
       self._trace[code_of(f)] = None if lines is None else frozenset(lines)
@@ -374,7 +385,7 @@ class DetSched(object):
         raise HarnessError("chooser returned %r" % (v,))
     pick = cands[v % n]
     d = {"k": k, "n": n, "v": v % n, "thread": me.name, "kind": kind, "site": site, "window": bool(window),
-         "to": pick.name}
+         "to": pick.name, "frozen": bool(self.frozen or self.aborting)}
     self.res.decisions.append(d)
     if kind == "line" and v % n != 0:
       self.res.preemptions.append(d)
@@ -391,7 +402,7 @@ class DetSched(object):
       self._await_turn(me)
 
   def _await_turn(self, me):
-    if not me.sem.acquire(timeout=self.watchdog_s * 3 + 30):
+    if not me.sem.acquire(True, self.watchdog_s * 3 + 30):
       raise DetSchedAbort("detsched: thread %s never got the baton back" % me.name)
 
   def _on_line(self, code, line):
@@ -401,21 +412,32 @@ class DetSched(object):
     me = self._by_ident.get(_rt.get_ident())
     if me is None or self.current is not me:
       return
+    w = self._windows.get(code)
+    self._line_point(me, code.co_qualname, line, w is not None and line in w)
+
+  def switch_point(self, site, window=False):
+    """A voluntary switch point in harness code (behaves like a traced line event)."""
+    me = self._by_ident.get(_rt.get_ident())
+    if me is None or self.current is not me:
+      raise HarnessError("detsched.switch_point from a thread that does not hold the baton")
+    self._line_point(me, site, 0, window)
+
+  def _line_point(self, me, where, line, window):
     self.res.line_events += 1
     if self.aborting:
       self._abort_lines += 1
       if self._abort_lines > 200000:
         raise DetSchedAbort("unwinding: thread %s keeps running" % me.name)
       return
-    w = self._windows.get(code)
-    window = w is not None and line in w
+    site = "%s:%d" % (where, line) if line else where
+    if self.observer is not None:
+      self.observer(me.name, site)
     if self.decide_on == "windows" and not window:
       return
     if self.res.line_events > self.max_switch_points:
       self.res.budget_exceeded = True
       self._start_abort("budget")
       return
-    site = "%s:%d" % (code.co_qualname, line)
     self.res.trace.append((me.name, "line", site, self.now))
     others = self._others(me)
     if not others:
@@ -473,6 +495,12 @@ class DetSched(object):
           return me
         return live[0] if live else me
       t = min(dls)
+      if t > self.t_limit:
+        self.res.stalled = [(r.name, r.site) for r in live if r.deadline is None]
+        self._start_abort("stalled")
+        if me.state == "blocked":
+          return me
+        return live[0]
       self.res.time_advances.append((self.now, t, [r.name for r in live if r.deadline == t]))
       self.res.trace.append(("*", "time-advance", "%r -> %r" % (self.now, t), self.now))
       self.now = t
